@@ -1,7 +1,9 @@
 CONSTANTS
+  Strict = TRUE
   Variant = "ok"
   MaxMoves = 2
   CfgSel = {"weekly", "oneshot", "workday"}
+  StartSel = {2}
 SPECIFICATION MSpec
 CONSTRAINT Bound
 VIEW View
